@@ -24,9 +24,10 @@ import (
 )
 
 type c06Call struct {
-	Kind   string `json:"kind"`           // call | sub
-	Cancel string `json:"cancel"`         // none | before | running | race | established | pending (subscription cancelled before its call was answered)
-	Bare   bool   `json:"bare,omitempty"` // sub: through the method whose only result is the channel
+	Kind   string `json:"kind"`            // call | sub
+	Cancel string `json:"cancel"`          // none | before | running | race | established | pending (subscription cancelled before its call was answered)
+	Bare   bool   `json:"bare,omitempty"`  // sub: through the method whose only result is the channel
+	Alias  bool   `json:"alias,omitempty"` // sub: through a server-side alias of the subscribing method
 }
 
 type c06Case struct {
@@ -39,10 +40,17 @@ type c06Case struct {
 	// SharedCtx: the subscriptions that get cancelled once established were all opened under one cancellable context
 	// (each through its own value-carrying child of it), which is cancelled once
 	SharedCtx bool `json:"shared_ctx,omitempty"`
+	// HTTPTimeout (http): the client was built with WithTimeout(120ms), a WebSocket liveness setting; the calls stay in
+	// flight for longer than that before anything is judged
+	HTTPTimeout bool `json:"http_timeout,omitempty"`
 }
 
 func runC06(c c06Case) (*Violation, string) {
-	rig, err := NewRig(RigOpts{NoProxy: true})
+	ro := RigOpts{NoProxy: true}
+	if c.HTTPTimeout && c.Transport == "http" {
+		ro.HTTPClientTimeout = 120 * time.Millisecond
+	}
+	rig, err := NewRig(ro)
 	if err != nil {
 		return nil, "rig"
 	}
@@ -106,6 +114,7 @@ func runC06(c c06Case) (*Violation, string) {
 			} else {
 				plan.Bare = cc.Bare
 			}
+			plan.ViaAlias = cc.Alias
 		}
 		go func(s *st, plan Plan) {
 			defer close(p.Done)
@@ -174,6 +183,9 @@ func runC06(c c06Case) (*Violation, string) {
 		if hctx.Err() == nil && rig.W.Running(s.tok) {
 			return violf("cancel-not-delivered", "%s %s was cancelled (%s) but its handler's context is still live after 3 probes and 2s; hook history: %v", s.Kind, s.tok, s.Cancel, hooks.History(20)), ""
 		}
+	}
+	if c.HTTPTimeout && c.Transport == "http" {
+		time.Sleep(250 * time.Millisecond)
 	}
 	// B: nothing else was cancelled
 	check := func(tok, what string) *Violation {
@@ -361,6 +373,15 @@ func runC06Raw(c c06Raw) *Violation {
 
 func c06NT(c c06Case) (bool, []string) {
 	cl := []string{"tr_" + c.Transport}
+	if c.HTTPTimeout && c.Transport == "http" {
+		cl = append(cl, "http_client_with_ws_timeout")
+	}
+	for _, cc := range c.Calls {
+		if cc.Kind == "sub" && cc.Alias {
+			cl = append(cl, "sub_via_alias")
+			break
+		}
+	}
 	nCancel, nKeep := 0, 0
 	for _, cc := range c.Calls {
 		cl = append(cl, "cancel_"+cc.Cancel, "kind_"+cc.Kind)
@@ -382,13 +403,13 @@ func c06NT(c c06Case) (bool, []string) {
 	return len(c.Calls) >= 2 && nCancel > 0 && nKeep > 0, cl
 }
 
-const c06Rule = "1-6 gated unary calls and 0-3 paced subscriptions on one client (ws; 1/5 of cases http with unary calls only) plus one call and one subscription on a second client that is never touched; every call is assigned none | cancelled-before-issue | cancelled-while-running | cancel-racing-release | cancelled-after-subscription-established; delays at cancel.send / call.dispatch / write.locked; a raw WebSocket peer cancelling one of two calls with xrpc.cancel frames that carry no id, a numeric, string or fractional id of their own, and the target id written as integer, float or string; optionally the cancelled subscriptions share one context; optionally a notification whose handler keeps running was sent on the same connection before the cancellations. Grid: every strict non-empty subset of 4 calls cancelled, per instant. Non-trivial = >=2 concurrent calls with a strict, non-empty subset cancelled; distinct by descriptor hash"
+const c06Rule = "1-6 gated unary calls and 0-3 paced subscriptions (directly, through the channel-only method, or through a server-side alias) on one client (ws; 1/5 of cases http with unary calls only, half of those through a client built with a 120 ms WebSocket timeout and held in flight for longer) plus one call and one subscription on a second client that is never touched; every call is assigned none | cancelled-before-issue | cancelled-while-running | cancel-racing-release | cancelled-after-subscription-established; delays at cancel.send / call.dispatch / write.locked; a raw WebSocket peer cancelling one of two calls with xrpc.cancel frames that carry no id, a numeric, string or fractional id of their own, and the target id written as integer, float or string; optionally the cancelled subscriptions share one context; optionally a notification whose handler keeps running was sent on the same connection before the cancellations. Grid: every strict non-empty subset of 4 calls cancelled, per instant. Non-trivial = >=2 concurrent calls with a strict, non-empty subset cancelled; distinct by descriptor hash"
 
 func TestC06(t *testing.T) {
 	rec := NewRec("C06", c06Rule)
 	defer rec.Finish(t)
 	rec.EnableJournal()
-	rec.RequireClass("subscriptions_share_a_context", "cancel_frame_with_id", "behind_slow_notification", "churn", "cancel_pending", "cancel_before", "cancel_running", "cancel_race", "cancel_established", "cancel_none", "tr_http", "tr_ws", "with_delays")
+	rec.RequireClass("sub_via_alias", "http_client_with_ws_timeout", "subscriptions_share_a_context", "cancel_frame_with_id", "behind_slow_notification", "churn", "cancel_pending", "cancel_before", "cancel_running", "cancel_race", "cancel_established", "cancel_none", "tr_http", "tr_ws", "with_delays")
 	run := func(ft failer, c c06Case) {
 		nt, cl := c06NT(c)
 		rec.Run(ft, c, nt, cl, func() *Violation {
@@ -425,13 +446,16 @@ func TestC06(t *testing.T) {
 				run(t, c06Case{Transport: "ws", Calls: calls})
 				if inst != "race" && mask%4 == 1 {
 					run(t, c06Case{Transport: "http", Calls: calls})
+					if mask%4 == 1 {
+						run(t, c06Case{Transport: "http", Calls: calls, HTTPTimeout: true})
+					}
 				}
 			}
 		}
 		for mask := 1; mask < 7; mask++ { // subscriptions: strict non-empty subsets of 3, plus an uncancelled unary call
 			calls := []c06Call{{Kind: "call", Cancel: "none"}}
 			for i := 0; i < 3; i++ {
-				cc := c06Call{Kind: "sub", Cancel: "none", Bare: (mask+i)%2 == 0}
+				cc := c06Call{Kind: "sub", Cancel: "none", Bare: (mask+i)%2 == 0, Alias: (mask+i)%3 == 0}
 				if mask&(1<<i) != 0 {
 					cc.Cancel = "established"
 				}
@@ -486,6 +510,7 @@ func TestC06(t *testing.T) {
 		c := c06Case{Transport: "ws"}
 		if rapid.IntRange(0, 4).Draw(rt, "http") == 0 {
 			c.Transport = "http"
+			c.HTTPTimeout = rapid.Bool().Draw(rt, "httptimeout")
 		}
 		c.SlowNotify = c.Transport == "ws" && rapid.IntRange(0, 3).Draw(rt, "slownotify") == 0
 		c.SharedCtx = c.Transport == "ws" && rapid.IntRange(0, 2).Draw(rt, "sharedctx") == 0
@@ -497,7 +522,7 @@ func TestC06(t *testing.T) {
 			m := rapid.IntRange(0, 3).Draw(rt, "nsubs")
 			for i := 0; i < m; i++ {
 				c.Calls = append(c.Calls, c06Call{Kind: "sub", Cancel: rapid.SampledFrom([]string{"none", "established", "established", "pending", "before"}).Draw(rt, fmt.Sprintf("scancel%d", i)),
-					Bare: rapid.IntRange(0, 2).Draw(rt, fmt.Sprintf("sbare%d", i)) == 0})
+					Bare: rapid.IntRange(0, 2).Draw(rt, fmt.Sprintf("sbare%d", i)) == 0, Alias: rapid.IntRange(0, 2).Draw(rt, fmt.Sprintf("salias%d", i)) == 0})
 			}
 			nr := rapid.IntRange(0, 3).Draw(rt, "nrules")
 			for i := 0; i < nr; i++ {
